@@ -657,7 +657,9 @@ class Glob(Generic[AnyStr]):
                 with os.scandir(scandir) as scan:
                     for f in scan:
                         try:
-                            hidden = self._is_hidden(f.name)  # type: ignore[arg-type]
+                            # `os.scandir` gives `str` names for a file descriptor, even if the pattern is `bytes`
+                            name = os.fsencode(f.name) if fd is not None and isinstance(self.sep, bytes) else f.name
+                            hidden = self._is_hidden(name)  # type: ignore[arg-type]
                             try:
                                 is_dir = f.is_dir()
                             except OSError:
@@ -669,7 +671,7 @@ class Glob(Generic[AnyStr]):
                                 # We don't care if a file is a link
                                 is_link = False
                             if (not dir_only or is_dir):
-                                yield f.name, is_dir, hidden, is_link  # type: ignore[misc]
+                                yield name, is_dir, hidden, is_link  # type: ignore[misc]
                         except OSError:  # pragma: no cover # noqa: PERF203
                             pass
             finally:
